@@ -4,7 +4,10 @@ use crate::http::response::ResponseError;
 use crate::http::{Request, Response, StatusCode};
 
 use std::io::Write;
+#[cfg(not(humphrey_verif))]
 use std::net::{SocketAddr, TcpStream};
+#[cfg(humphrey_verif)]
+use {crate::verif::net::TcpStream, std::net::SocketAddr};
 use std::time::Duration;
 
 /// Proxies a request to the given target, timing out and returning an error 502 after `timeout`.
